@@ -67,18 +67,18 @@ type heldSnap struct {
 }
 
 type c02 struct {
-	c        *core.RunCtx
-	store    kv.Store
-	fam      kv.Family
-	famDir   string
-	clock    int
-	commits  []*commitRec
-	held     map[int]*heldSnap       // reader task -> snapshot it holds
-	writing  map[int64]int           // table number -> flusher task writing it (until its commit returned)
-	rollupLv map[int64]bool          // files registered for rollup (never rolled up here: must stay)
-	createdBy map[int]int64          // simulator task id -> last table it created
-	nextTok  uint64
-	rollup   bool
+	c         *core.RunCtx
+	store     kv.Store
+	fam       kv.Family
+	famDir    string
+	clock     int
+	commits   []*commitRec
+	held      map[int]*heldSnap // reader task -> snapshot it holds
+	writing   map[int64]int     // table number -> flusher task writing it (until its commit returned)
+	rollupLv  map[int64]bool    // files registered for rollup (never rolled up here: must stay)
+	createdBy map[int]int64     // simulator task id -> last table it created
+	nextTok   uint64
+	rollup    bool
 }
 
 func (h *c02) tick() int { h.clock++; return h.clock }
